@@ -121,15 +121,26 @@ def check_gbp_sets(ctx):
     for t_, v, s_ in be.stores:
         pass
     recipes = {}     # container name -> list of (canonical element, canonical generators, index vars, stmt)
+    # local sets that are later stored as an element of a container: `numer.add(..)` ... `N[p, r] = numer - cancel`
+    local_role = {}
+    for cont_e, idx_e, val_e, pc_, lp_, st_ in be.substores:
+        v = val_e
+        while isinstance(v, ast.BinOp) and isinstance(v.op, ast.Sub):
+            v = v.left
+        if isinstance(cont_e, ast.Name) and isinstance(v, ast.Name):
+            local_role[v.id] = (cont_e.id, idx_e)
     for s_, c, pc, loops in be.calls:
         f = c.func
-        if not (isinstance(f, ast.Attribute) and f.attr == 'add' and isinstance(f.value, ast.Subscript) and isinstance(f.value.value, ast.Name)
-                and len(c.args) == 1):
+        if not (isinstance(f, ast.Attribute) and f.attr == 'add' and len(c.args) == 1):
+            continue
+        if isinstance(f.value, ast.Subscript) and isinstance(f.value.value, ast.Name):
+            cont, idx = f.value.value.id, f.value.slice
+        elif isinstance(f.value, ast.Name) and f.value.id in local_role:
+            cont, idx = local_role[f.value.id]
+        else:
             continue
         if not any(T(x) == 'self.minimal' and pol for x, pol in pc):
             continue
-        cont = f.value.value.id
-        idx = f.value.slice
         idx_vars = [U(e) for e in (idx.elts if isinstance(idx, ast.Tuple) else [idx])]
         inner = [(t, it) for t, it in loops if U(t) not in idx_vars]
         if not inner:
@@ -138,7 +149,7 @@ def check_gbp_sets(ctx):
         first = T(inner[0][1])
         centre = [v for v in idx_vars if '[%s]' % v in first]
         if len(centre) != 1:
-            raise AnalysisError('build_graph: cannot tell which region the set `%s` is built around' % U(f.value))
+            raise AnalysisError('build_graph: cannot tell which region the set `%s` is built around' % cont)
         x = centre[0]
         ren = {x: '_x'}
         for i, (t, it) in enumerate(inner):
